@@ -16,7 +16,7 @@ use cranelift_jit::{JITBuilder, JITModule};
 use cranelift_module::{FuncId, Linkage, Module};
 
 use crate::ebpf::{
-    self, Insn, BPF_ALU_OP_MASK, BPF_IND, BPF_JEQ, BPF_JGE, BPF_JGT, BPF_JLE, BPF_JLT, BPF_JMP32,
+    self, Insn, BPF_ALU_OP_MASK, BPF_CLS_MASK, BPF_IND, BPF_JEQ, BPF_JGE, BPF_JGT, BPF_JLE, BPF_JLT, BPF_JMP32,
     BPF_JNE, BPF_JSET, BPF_JSGE, BPF_JSGT, BPF_JSLE, BPF_JSLT, BPF_X, STACK_SIZE,
 };
 use crate::lib::*;
@@ -882,7 +882,7 @@ impl CraneliftCompiler {
                     let (fallthrough, target) = self.insn_targets[&(insn_ptr as u32)];
 
                     let is_reg = (insn.opc & BPF_X) != 0;
-                    let is_32 = (insn.opc & BPF_JMP32) != 0;
+                    let is_32 = (insn.opc & BPF_CLS_MASK) == BPF_JMP32;
                     let intcc = match insn.opc {
                         c if (c & BPF_ALU_OP_MASK) == BPF_JEQ => IntCC::Equal,
                         c if (c & BPF_ALU_OP_MASK) == BPF_JNE => IntCC::NotEqual,
